@@ -9,6 +9,7 @@ import (
 	"math/rand"
 	"runtime"
 	"strconv"
+	"strings"
 
 	"mellium.im/xmlstream"
 	"mellium.im/xmpp/stanza"
@@ -53,6 +54,29 @@ type presV struct {
 	XMLName xml.Name `xml:"presence"`
 	ID      string   `xml:"id,attr,omitempty"`
 	P       payloadV
+}
+
+// nsStanzaV is marshalled under whatever name XMLName holds: used to send
+// requests whose outer element carries the stream's content namespace
+// explicitly (as a re-sent decoded stanza or a value tagged "jabber:client iq"
+// does).
+type nsStanzaV struct {
+	XMLName xml.Name
+	Type    string `xml:"type,attr,omitempty"`
+	ID      string `xml:"id,attr,omitempty"`
+	P       payloadV
+}
+
+// nsText is the same request as XML text for a decoder-backed reader.
+func nsText(kind, ns, typ, id, rq string) string {
+	s := "<" + kind + " xmlns='" + ns + "'"
+	if typ != "" {
+		s += " type='" + typ + "'"
+	}
+	if id != "" {
+		s += " id='" + id + "'"
+	}
+	return s + "><q xmlns='" + nsV + "' rq='" + rq + "'/></" + kind + ">"
 }
 
 var vias = []struct {
@@ -108,6 +132,37 @@ func (w *world) call(ctx context.Context, via, kind, rq, id string, r *rand.Rand
 	type respV struct {
 		XMLName xml.Name
 		RN      int `xml:"rn,attr"`
+	}
+	// a quarter of the requests carry the stream's content namespace on their
+	// outer element (explicitly qualified requests must be correlated too)
+	ns := ""
+	if r.Intn(4) == 0 {
+		ns = w.p.Opts.NS()
+		w.c.Count("requests_explicitly_namespaced", 1)
+	}
+	switch {
+	case ns != "" && via == "SendIQ":
+		rc, err = s.SendIQ(ctx, xml.NewDecoder(strings.NewReader(nsText("iq", ns, typ, id, rq))))
+	case ns != "" && via == "EncodeIQ":
+		rc, err = s.EncodeIQ(ctx, nsStanzaV{XMLName: xml.Name{Space: ns, Local: "iq"}, Type: typ, ID: id, P: payloadV{RQ: rq}})
+	case ns != "" && via == "SendMessage":
+		rc, err = s.SendMessage(ctx, xml.NewDecoder(strings.NewReader(nsText("message", ns, "chat", id, rq))))
+	case ns != "" && via == "EncodeMessage":
+		rc, err = s.EncodeMessage(ctx, nsStanzaV{XMLName: xml.Name{Space: ns, Local: "message"}, Type: "chat", ID: id, P: payloadV{RQ: rq}})
+	case ns != "" && via == "SendPresence":
+		rc, err = s.SendPresence(ctx, xml.NewDecoder(strings.NewReader(nsText("presence", ns, "", id, rq))))
+	case ns != "" && via == "EncodePresence":
+		rc, err = s.EncodePresence(ctx, nsStanzaV{XMLName: xml.Name{Space: ns, Local: "presence"}, ID: id, P: payloadV{RQ: rq}})
+	default:
+		ns = ""
+	}
+	if ns != "" {
+		if err != nil {
+			return 0, err
+		}
+		rn, note := readResp(rc, r)
+		w.log.add(ev{Ev: "closed", RQ: rq, Note: note})
+		return rn, nil
 	}
 	switch via {
 	case "SendIQ":
